@@ -66,6 +66,10 @@ def _canon_val(v):
     raise TypeError(f"attribute value of type {type(v).__name__}")
 
 
+import re as _re
+_INTERNAL = _re.compile(r"^(name|_sep|_[A-Za-z]*Node__\w+)$")     # the library's own instance fields
+
+
 def _obs_tree(root):
     """pre-order (depth, name, attributes sorted by key); public instance attributes except `name`."""
     out = []
@@ -75,7 +79,7 @@ def _obs_tree(root):
         name = n.node_name
         if not isinstance(name, str):
             raise TypeError("node name is not a str")
-        at = sorted((k, _canon_val(v)) for k, v in vars(n).items() if not k.startswith("_") and k != "name")
+        at = sorted((k, _canon_val(v)) for k, v in vars(n).items() if not _INTERNAL.match(k))
         out.append([d, name, [list(kv) for kv in at]])
         if len(out) > 400:
             raise ValueError("result tree too large")
@@ -134,6 +138,10 @@ def _py_dict1(d, name_key, child_key, memo):
     return dict(items)
 
 
+def _ctype(case, k):
+    return (case.get("ctypes") or {}).get(k, "int" if k == "age" else "str")
+
+
 def run_impl(prop, case):
     m = _mods()
     kind = case["kind"]
@@ -150,11 +158,13 @@ def run_impl(prop, case):
                 # NaN, which this version of bigtree does not recognise as "no parent")
                 data = [[c, p] + [a.get(k) for k in cols] for c, p, a in rows]
                 df = pd.DataFrame(data, columns=["child", "parent"] + cols, dtype=object)
+                if case.get("index") is not None:
+                    df.index = list(case["index"])      # non-default row labels (repeated / shuffled / strings)
                 obs[entry] = _call(lambda: C.dataframe_to_tree_by_relation(df, allow_duplicates=ad), _obs_tree)
             else:
                 schema = {"child": pl.Utf8, "parent": pl.Utf8}
                 for k in cols:
-                    schema[k] = pl.Int64 if k == "age" else pl.Utf8
+                    schema[k] = pl.Int64 if _ctype(case, k) == "int" else pl.Utf8
                 data = [[c, p] + [a.get(k) for k in cols] for c, p, a in rows]
                 df = pl.DataFrame(data, schema=schema, orient="row")
                 obs[entry] = _call(lambda: C.polars_to_tree_by_relation(df, allow_duplicates=ad), _obs_tree)
@@ -428,7 +438,54 @@ def descendants(par, x):
     return out
 
 
+HEADERS = ["age (years)", "class", "def", "_id", "2024", "a b", "x-y", "é", "1st", "lambda"]
+
+
+def _gen_index(rng, rows):
+    n = len(rows)
+    if n == 0:
+        return None
+    style = rng.choice(["concat", "concat", "concat3", "shuffled", "strings", "repstrings", "constant"])
+    if style == "concat":
+        k = rng.randint(1, n)
+        labels = list(range(k)) + list(range(n - k))
+    elif style == "concat3":
+        labels = [i % max(1, (n + 2) // 3) for i in range(n)]
+    elif style == "shuffled":
+        labels = list(range(n))
+        rng.shuffle(labels)
+    elif style == "strings":
+        labels = [f"r{i}" for i in range(n)]
+        rng.shuffle(labels)
+    elif style == "repstrings":
+        labels = [f"k{i // 2}" for i in range(n)]
+        rng.shuffle(labels)
+    else:
+        labels = [0] * n
+    return labels
+
+
+def _finish_rel(rng, lab, case):
+    """attribute column headers that are no Python identifiers; pandas frames with non-default row labels"""
+    if case["cols"] and rng.random() < 0.4:
+        new = rng.sample(HEADERS, len(case["cols"]))
+        ren = dict(zip(case["cols"], new))
+        case["ctypes"] = {ren[k]: ("int" if k == "age" else "str") for k in case["cols"]}
+        case["rows"] = [[c, p, {ren[k]: v for k, v in a.items()}] for c, p, a in case["rows"]]
+        case["cols"] = new
+        lab += "+headers"
+    if "pandas" in case["entries"] and rng.random() < 0.4:
+        case["index"] = _gen_index(rng, case["rows"])
+        if case["index"] is not None:
+            lab += "+index"
+    return lab, case
+
+
 def gen_rel(rng, force=None):
+    return _finish_rel(rng, *_gen_rel(rng, force))
+
+
+def _gen_rel(rng, force=None):
     r = rng.random()
     kind = force
     if kind is None:
@@ -487,7 +544,7 @@ def gen_rel(rng, force=None):
             rows = [[c, None if p is None else ("q0" if p == names[0] else p), a] for c, p, a in rows]
     elif defect in ("ambig", "ambig_last", "allowdup"):
         if not nonleaf:
-            return gen_rel(rng, force)
+            return _gen_rel(rng, force)
         x = rng.choice(nonleaf)
         bad = descendants(par, x) | {x, par[x]}
         if defect == "allowdup":
@@ -496,7 +553,7 @@ def gen_rel(rng, force=None):
         else:
             cands = [q for q in range(n) if q != x and q != par[x]]
         if not cands:
-            return gen_rel(rng, force)
+            return _gen_rel(rng, force)
         q = rng.choice(cands)
         row = [names[x], names[q], fresh(4)]
         if defect == "ambig_last":
@@ -504,10 +561,10 @@ def gen_rel(rng, force=None):
         else:
             rows.insert(rng.randint(0, len(rows)), row)
         if ad and _has_cycle(rows):
-            return gen_rel(rng, force)
+            return _gen_rel(rng, force)
     elif defect == "ambig_null":
         if not nonleaf:
-            return gen_rel(rng, force)
+            return _gen_rel(rng, force)
         x = rng.choice(nonleaf)
         rows.insert(rng.randint(0, len(rows)), [names[x], None, fresh(5)])
     elif defect in ("duprow", "duprow_attr"):
@@ -542,7 +599,7 @@ def gen_rel(rng, force=None):
                 for c, p, a in rows]
     elif defect == "cycle_reach":
         if not nonleaf:
-            return gen_rel(rng, force)
+            return _gen_rel(rng, force)
         ad = True
         x = rng.choice(nonleaf)
         d = rng.choice(sorted(descendants(par, x)))
@@ -709,6 +766,18 @@ def corpus(prop):
         ("empty-root-name", rel([["b", "", {}], ["c", "b", {}]])),
         ("unsorted-siblings", rel([["c", "a", A(age=1)], ["b", "a", A(age=2)], ["a2", "a", A(age=3)],
                                    ["z", "c", A(age=None)]], ["age"])),
+        ("non-identifier-headers", dict(rel([["a", None, {"age (years)": 90, "class": "k"}],
+                                             ["b", "a", {"age (years)": 65, "class": None}],
+                                             ["c", "a", {"age (years)": None, "class": "m"}],
+                                             ["d", "b", {"age (years)": 40, "class": "n"}]], ["age (years)", "class"]),
+                                        ctypes={"age (years)": "int", "class": "str"})),
+        ("ambiguous-repeated-index-labels", dict(rel([["b", "a", {}], ["c", "a", {}], ["x", "b", {}], ["y", "x", {}],
+                                                      ["x", "c", {}], ["z", "c", {}]]), index=[0, 1, 2, 3, 0, 2])),
+        ("F9-repeated-labels-on-siblings", dict(rel([["b", "a", {}], ["c", "a", {}], ["d", "b", {}], ["e", "b", {}]]),
+                                                index=[0, 0, 1, 1])),
+        ("F9-constant-label-with-root-row", dict(rel([["a", None, {"age": 1}], ["b", "a", {"age": 2}],
+                                                      ["c", "a", {"age": None}]], ["age"]), index=[7, 7, 7])),
+        ("string-index-labels", dict(rel([["b", "a", {}], ["c", "a", {}], ["d", "b", {}]]), index=["r2", "r0", "r1"])),
         ("heap-docstring", {"kind": "heap", "list": [1, 2, 3, 4, 5, 6, 7, 8, 9, 10]}),
         ("heap-empty", {"kind": "heap", "list": []}),
         ("heap-one", {"kind": "heap", "list": [7]}),
@@ -768,11 +837,18 @@ def shrink_candidates(prop, case):
         for i in range(len(rows)):
             c = dict(case)
             c["rows"] = rows[:i] + rows[i + 1:]
+            if case.get("index") is not None:
+                c["index"] = case["index"][:i] + case["index"][i + 1:]
             c["entries"] = [e for e in case["entries"] if e in entries_for(c["rows"])]
             if c["entries"]:
                 yield c
+        if case.get("index") is not None:
+            c = dict(case)
+            c["index"] = None
+            yield c
         if case["cols"]:
             c = dict(case)
+            c.pop("ctypes", None)
             c["cols"] = []
             c["rows"] = [[a, b, {}] for a, b, _ in rows]
             yield c
@@ -845,6 +921,10 @@ def rule(prop):
             "<= 4 names; nested dictionaries with default / non-default keys, missing / empty / ill-typed children, missing "
             "names, repeated sibling names, one sub-dictionary OBJECT nested under two parents; every nested dictionary is built "
             "twice from the same object and compared with a deep copy taken before (input unchanged); number lists of length 1-40 and the empty list.  "
+            "About 40 % of the cases with attribute columns use headers that are no Python identifiers (blank, "
+            "parentheses, keywords, leading underscore / digit); about 40 % of the pandas frames carry non-default row "
+            "labels (concatenated pieces = repeated labels incl. on rows with the same parent or child, shuffled, strings, "
+            "one constant label; F9).  "
             "Left out for environment reasons: rows with an empty parent through list_to_tree_by_relation (it builds a "
             "default-dtype DataFrame; pandas 3 turns None into NaN and the pinned bigtree then reports two roots - the "
             "repository's own test_list_to_tree_by_relation_empty_parent fails the same way); DataFrames are built with "
